@@ -1,6 +1,8 @@
 import ScionTime.Gen.SkelC20
 import ScionTime.Model.Skel.Ntske
 import ScionTime.Model.Skel.NtskeSrv
+import ScionTime.Model.Skel.NtskeRec
+import ScionTime.Model.Skel.NtskeSrvStart
 
 /-!
   Control-skeleton pins, group C20 (notes/SKEL.md): the control structure and the text of every
@@ -29,6 +31,24 @@ namespace ScionTime
 #eval Model.Skel.check "NtskeSrv.writeNTSKEErrorMsgQUIC" Gen.Skel.NtskeSrv.writeNTSKEErrorMsgQUIC Model.Skel.NtskeSrv.writeNTSKEErrorMsgQUIC
 #eval Model.Skel.check "NtskeSrv.handleKeyExchangeQUIC" Gen.Skel.NtskeSrv.handleKeyExchangeQUIC Model.Skel.NtskeSrv.handleKeyExchangeQUIC
 #eval Model.Skel.check "NtskeSrv.runNTSKEServerQUIC" Gen.Skel.NtskeSrv.runNTSKEServerQUIC Model.Skel.NtskeSrv.runNTSKEServerQUIC
+#eval Model.Skel.check "NtskeRec.RecordHdr_pack" Gen.Skel.NtskeRec.RecordHdr_pack Model.Skel.NtskeRec.RecordHdr_pack
+#eval Model.Skel.check "NtskeRec.packsimple" Gen.Skel.NtskeRec.packsimple Model.Skel.NtskeRec.packsimple
+#eval Model.Skel.check "NtskeRec.packheader" Gen.Skel.NtskeRec.packheader Model.Skel.NtskeRec.packheader
+#eval Model.Skel.check "NtskeRec.ExchangeMsg_Pack" Gen.Skel.NtskeRec.ExchangeMsg_Pack Model.Skel.NtskeRec.ExchangeMsg_Pack
+#eval Model.Skel.check "NtskeRec.ExchangeMsg_AddRecord" Gen.Skel.NtskeRec.ExchangeMsg_AddRecord Model.Skel.NtskeRec.ExchangeMsg_AddRecord
+#eval Model.Skel.check "NtskeRec.NextProto_pack" Gen.Skel.NtskeRec.NextProto_pack Model.Skel.NtskeRec.NextProto_pack
+#eval Model.Skel.check "NtskeRec.End_pack" Gen.Skel.NtskeRec.End_pack Model.Skel.NtskeRec.End_pack
+#eval Model.Skel.check "NtskeRec.Server_pack" Gen.Skel.NtskeRec.Server_pack Model.Skel.NtskeRec.Server_pack
+#eval Model.Skel.check "NtskeRec.Port_pack" Gen.Skel.NtskeRec.Port_pack Model.Skel.NtskeRec.Port_pack
+#eval Model.Skel.check "NtskeRec.Cookie_pack" Gen.Skel.NtskeRec.Cookie_pack Model.Skel.NtskeRec.Cookie_pack
+#eval Model.Skel.check "NtskeRec.Warning_pack" Gen.Skel.NtskeRec.Warning_pack Model.Skel.NtskeRec.Warning_pack
+#eval Model.Skel.check "NtskeRec.Error_pack" Gen.Skel.NtskeRec.Error_pack Model.Skel.NtskeRec.Error_pack
+#eval Model.Skel.check "NtskeRec.Algorithm_pack" Gen.Skel.NtskeRec.Algorithm_pack Model.Skel.NtskeRec.Algorithm_pack
+#eval Model.Skel.check "NtskeRec.AcceptTLSConn" Gen.Skel.NtskeRec.AcceptTLSConn Model.Skel.NtskeRec.AcceptTLSConn
+#eval Model.Skel.check "NtskeRec.setBit" Gen.Skel.NtskeRec.setBit Model.Skel.NtskeRec.setBit
+#eval Model.Skel.check "NtskeRec.hasBit" Gen.Skel.NtskeRec.hasBit Model.Skel.NtskeRec.hasBit
+#eval Model.Skel.check "NtskeSrvStart.StartNTSKEServerIP" Gen.Skel.NtskeSrvStart.StartNTSKEServerIP Model.Skel.NtskeSrvStart.StartNTSKEServerIP
+#eval Model.Skel.check "NtskeSrvStart.StartNTSKEServerSCION" Gen.Skel.NtskeSrvStart.StartNTSKEServerSCION Model.Skel.NtskeSrvStart.StartNTSKEServerSCION
 
 /-! the pins -/
 theorem C20_skel_Ntske_Fetcher_exchangeKeys : Gen.Skel.Ntske.Fetcher_exchangeKeys = Model.Skel.Ntske.Fetcher_exchangeKeys := rfl
@@ -47,5 +67,23 @@ theorem C20_skel_NtskeSrv_runNTSKEServerTLS : Gen.Skel.NtskeSrv.runNTSKEServerTL
 theorem C20_skel_NtskeSrv_writeNTSKEErrorMsgQUIC : Gen.Skel.NtskeSrv.writeNTSKEErrorMsgQUIC = Model.Skel.NtskeSrv.writeNTSKEErrorMsgQUIC := rfl
 theorem C20_skel_NtskeSrv_handleKeyExchangeQUIC : Gen.Skel.NtskeSrv.handleKeyExchangeQUIC = Model.Skel.NtskeSrv.handleKeyExchangeQUIC := rfl
 theorem C20_skel_NtskeSrv_runNTSKEServerQUIC : Gen.Skel.NtskeSrv.runNTSKEServerQUIC = Model.Skel.NtskeSrv.runNTSKEServerQUIC := rfl
+theorem C20_skel_NtskeRec_RecordHdr_pack : Gen.Skel.NtskeRec.RecordHdr_pack = Model.Skel.NtskeRec.RecordHdr_pack := rfl
+theorem C20_skel_NtskeRec_packsimple : Gen.Skel.NtskeRec.packsimple = Model.Skel.NtskeRec.packsimple := rfl
+theorem C20_skel_NtskeRec_packheader : Gen.Skel.NtskeRec.packheader = Model.Skel.NtskeRec.packheader := rfl
+theorem C20_skel_NtskeRec_ExchangeMsg_Pack : Gen.Skel.NtskeRec.ExchangeMsg_Pack = Model.Skel.NtskeRec.ExchangeMsg_Pack := rfl
+theorem C20_skel_NtskeRec_ExchangeMsg_AddRecord : Gen.Skel.NtskeRec.ExchangeMsg_AddRecord = Model.Skel.NtskeRec.ExchangeMsg_AddRecord := rfl
+theorem C20_skel_NtskeRec_NextProto_pack : Gen.Skel.NtskeRec.NextProto_pack = Model.Skel.NtskeRec.NextProto_pack := rfl
+theorem C20_skel_NtskeRec_End_pack : Gen.Skel.NtskeRec.End_pack = Model.Skel.NtskeRec.End_pack := rfl
+theorem C20_skel_NtskeRec_Server_pack : Gen.Skel.NtskeRec.Server_pack = Model.Skel.NtskeRec.Server_pack := rfl
+theorem C20_skel_NtskeRec_Port_pack : Gen.Skel.NtskeRec.Port_pack = Model.Skel.NtskeRec.Port_pack := rfl
+theorem C20_skel_NtskeRec_Cookie_pack : Gen.Skel.NtskeRec.Cookie_pack = Model.Skel.NtskeRec.Cookie_pack := rfl
+theorem C20_skel_NtskeRec_Warning_pack : Gen.Skel.NtskeRec.Warning_pack = Model.Skel.NtskeRec.Warning_pack := rfl
+theorem C20_skel_NtskeRec_Error_pack : Gen.Skel.NtskeRec.Error_pack = Model.Skel.NtskeRec.Error_pack := rfl
+theorem C20_skel_NtskeRec_Algorithm_pack : Gen.Skel.NtskeRec.Algorithm_pack = Model.Skel.NtskeRec.Algorithm_pack := rfl
+theorem C20_skel_NtskeRec_AcceptTLSConn : Gen.Skel.NtskeRec.AcceptTLSConn = Model.Skel.NtskeRec.AcceptTLSConn := rfl
+theorem C20_skel_NtskeRec_setBit : Gen.Skel.NtskeRec.setBit = Model.Skel.NtskeRec.setBit := rfl
+theorem C20_skel_NtskeRec_hasBit : Gen.Skel.NtskeRec.hasBit = Model.Skel.NtskeRec.hasBit := rfl
+theorem C20_skel_NtskeSrvStart_StartNTSKEServerIP : Gen.Skel.NtskeSrvStart.StartNTSKEServerIP = Model.Skel.NtskeSrvStart.StartNTSKEServerIP := rfl
+theorem C20_skel_NtskeSrvStart_StartNTSKEServerSCION : Gen.Skel.NtskeSrvStart.StartNTSKEServerSCION = Model.Skel.NtskeSrvStart.StartNTSKEServerSCION := rfl
 
 end ScionTime
